@@ -1,19 +1,19 @@
 # run parameters and manifest texts of the C03 check (read by ../props.py)
-PROP = dict(
-    engine="stack", test="TestC03", level="exploration",
-    quick=dict(checks=300, shards=12, timeout=1200),
-    thorough=dict(checks=4000, shards=14, timeout=3400),
-    rule="rapid draws the extensions directory (0-3 files or symlinks, 0-2 directories, names from [A-Za-z0-9._-]{1,12}), a subscription "
-         "set per extension, 0-2 internal extensions registered by the runtime process, and a random linear extension of the partial order "
-         "{E.register < E.next; all E.register < I.register, R.next; I.register < R.next, I.next} over {E.register, E.next, I.register, "
-         "I.next, R.next, invocation arrives}; the order is enforced with latches ('took effect' = answered, or parked inside the emulator "
-         "according to its internal state descriptor); one party is held back behind a quiet window of 40-150 ms. Oracle on the "
-         "sequence-numbered history: launched set == non-directory entries, once each, by base name; runtime started after every external "
-         "registration was issued; no invocation delivered to anyone before the issue of the runtime's next and of the first next of every "
-         "accepted extension; late registrations refused with 403 (RegistrationClosed / InvalidExtensionState); the invocation and a "
-         "following one succeed. Non-trivial: >=2 parties besides the runtime and an order other than register*, next*, runtime, invocation.",
-    assumptions=["fake process supervisor (DESIGN 3.4)", "a party held back for ever is observed for a finite window only"],
-    level_text="random search over arrival orders (latch-enforced linear extensions) and directory contents against the real init orchestration.",
-    level_note="orders are at the granularity of whole API calls; one generation only",
-    technique="property-based testing (rapid): generated schedules (linear extensions enforced by latches), history invariant effect-vs-issue",
-)
+PROP = {'engine': 'stack',
+ 'test': 'TestC03',
+ 'level': 'exploration',
+ 'quick': {'checks': 300, 'shards': 12, 'timeout': 1200},
+ 'thorough': {'checks': 10000, 'shards': 14, 'timeout': 3400},
+ 'rule': 'rapid draws the extensions directory (0-3 files or symlinks, 0-2 directories, names from [A-Za-z0-9._-]{1,12}), a subscription set per '
+         'extension, 0-2 internal extensions registered by the runtime process, and a random linear extension of the partial order {E.register < '
+         'E.next; all E.register < I.register, R.next; I.register < R.next, I.next} over {E.register, E.next, I.register, I.next, R.next, invocation '
+         "arrives}; the order is enforced with latches ('took effect' = answered, or parked inside the emulator according to its internal state "
+         'descriptor); one party is held back behind a quiet window of 40-150 ms. Oracle on the sequence-numbered history: launched set == '
+         'non-directory entries, once each, by base name; runtime started after every external registration was issued; no invocation delivered to '
+         "anyone before the issue of the runtime's next and of the first next of every accepted extension; late registrations refused with 403 "
+         '(RegistrationClosed / InvalidExtensionState); the invocation and a following one succeed. Non-trivial: >=2 parties besides the runtime and '
+         'an order other than register*, next*, runtime, invocation.',
+ 'assumptions': ['fake process supervisor (DESIGN 3.4)', 'a party held back for ever is observed for a finite window only'],
+ 'level_text': 'random search over arrival orders (latch-enforced linear extensions) and directory contents against the real init orchestration.',
+ 'level_note': 'orders are at the granularity of whole API calls; one generation only',
+ 'technique': 'property-based testing (rapid): generated schedules (linear extensions enforced by latches), history invariant effect-vs-issue'}
